@@ -857,6 +857,12 @@ def extract_pointers(src, facts, notes):
     except (ParseError, IndexError, TypeError) as ex:
         notes.append('pointers: arc_union.rs: %s' % ex)
     PT['union'] = U
+    # the sized stand-in type behind ThinArc's thin pointer: its [T; 0] tail carries T's alignment, so that the
+    # header (and the recorded length) sit at the same offsets as in the fat type
+    S = facts.get('structs', {})
+    tp = [type_text(ty).replace(' ', '') for nm, vis, ty in (S.get('ThinArc') or {}).get('fields', []) if nm == 'ptr']
+    PT['thin_pointee'] = tp[0] if tp else None
+    PT['thin_pointee_ok'] = tp == ['ptr::NonNull<ArcInner<HeaderSlice<HeaderWithLength<H>,[T;0]>>>']
     facts['pointers'] = PT
 
 def emit_pointers(PT):
@@ -871,6 +877,7 @@ def emit_pointers(PT):
     out.append('Definition union_untag1 : bexpr := %s.' % U['untag1'])
     out.append('Definition union_untag2 : bexpr := %s.' % U['untag2'])
     out.append('Definition union_borrow_arms_ok : bool := %s.' % b(U['arms_ok']))
+    out.append('Definition thin_pointee_ok : bool := %s.' % b(PT.get('thin_pointee_ok')))
     return out
 
 
